@@ -289,29 +289,67 @@ def py_sr_column_ok(ped, gs, t, alle):
 
 
 # ------------------------------------------------------------------------------------------- CLI scenarios
+def random_names(rng, k):
+    """k distinct sample names of mixed styles, so that alphabetical order is unrelated to the roles"""
+    out = set()
+    letters = "abcdefghijklmnopqrstuvwxyz"
+    while len(out) < k:
+        style = rng.randrange(5)
+        if style == 0:
+            nm = "NA" + "".join(rng.choice("0123456789") for _ in range(5))
+        elif style == 1:
+            nm = "".join(rng.choice(letters) for _ in range(rng.randint(2, 8)))
+        elif style == 2:
+            nm = rng.choice(letters).upper() + "".join(rng.choice(letters) for _ in range(rng.randint(1, 5)))
+        elif style == 3:
+            nm = rng.choice("123456789") + "".join(rng.choice(letters + "0123456789_") for _ in range(rng.randint(1, 5)))
+        else:
+            nm = rng.choice(["son", "daughter", "father", "mother", "kid", "dad", "mum", "proband", "sib", "HG", "s"]) \
+                + rng.choice(["", "", "1", "2", "_a", "_b", "-x"])
+        out.add(nm)
+    out = list(out)
+    rng.shuffle(out)
+    return out
+
+
 def make_cli_spec(rng, **kw):
-    kind = kw.get("kind") or rng.choice(["trio", "trio", "quartet"])
-    members = {"trio": ["father", "mother", "child"], "quartet": ["father", "mother", "child", "child2"]}[kind]
+    """families with 1-3 children (sometimes two independent families), random sample names, VCF column order and
+    PED line order shuffled independently of each other and of the roles"""
+    nfam = kw.get("nfam") or (2 if rng.random() < 0.2 else 1)
+    nchild = [kw.get("nchildren") or rng.choice([1, 1, 2, 2, 2, 3]) for _ in range(nfam)]
+    if nfam == 2:
+        nchild = [min(c, 2) for c in nchild]
     extra = kw.get("extra", rng.random() < 0.3)
-    samples = members + (["other"] if extra else [])
-    order = list(samples)
-    rng.shuffle(order)
+    names = random_names(rng, sum(2 + c for c in nchild) + (1 if extra else 0))
+    families, ped_lines = [], []
+    for c in nchild:
+        fa, mo = names.pop(), names.pop()
+        ch = [names.pop() for _ in range(c)]
+        families.append({"father": fa, "mother": mo, "children": ch})
+        ped_lines += [[x, fa, mo] for x in ch]
+    other = names.pop() if extra else None
+    rng.shuffle(ped_lines)
+    members = [s for f in families for s in [f["father"], f["mother"]] + f["children"]]
+    samples = members + ([other] if other else [])
+    rng.shuffle(samples)
     reads_mode = kw.get("reads_mode") or rng.choice(["all", "all", "some", "none", "children", "parents"])
     if reads_mode == "all":
         reads_for = list(samples)
     elif reads_mode == "none":
         reads_for = []
     elif reads_mode == "children":
-        reads_for = [s for s in members if s.startswith("child")]
+        reads_for = [s for f in families for s in f["children"]]
     elif reads_mode == "parents":
-        reads_for = ["father", "mother"]
+        reads_for = [s for f in families for s in (f["father"], f["mother"])]
     else:
         reads_for = [s for s in samples if rng.random() < 0.5]
+    big = max(nchild) >= 3
     spec = {
         "seed": rng.randrange(1 << 40),
-        "kind": kind, "samples": order, "members": members,
-        "nvars": kw.get("nvars", rng.randint(5, 14)),
-        "nchrom": rng.choice([1, 1, 2]),
+        "kind": "+".join(f"{c}child" for c in nchild),
+        "families": families, "other": other, "samples": samples, "ped_lines": ped_lines, "members": members,
+        "nvars": kw.get("nvars", rng.randint(5, 10 if big or nfam == 2 else 14)),
+        "nchrom": 1 if big else rng.choice([1, 1, 2]),
         "het_fraction": rng.choice([0.4, 0.6, 0.8]),
         "recomb_prob": rng.choice([0.0, 0.0, 0.15, 0.3]),
         "reads_for": reads_for,
@@ -323,7 +361,8 @@ def make_cli_spec(rng, **kw):
         "n_conflict": rng.choice([0, 0, 1, 2, 3]),
         "n_missing": rng.choice([0, 0, 1, 2]),
         "n_wrong": rng.choice([0, 0, 1, 2]),     # consistent-looking but untrue genotypes
-        "downsampling": rng.choice([6, 15, 15]),
+        # three trios = 64 transmission values: keep the coverage per sample at 1-2
+        "downsampling": rng.choice([5, 10]) if big else rng.choice([6, 15, 15]),
     }
     return spec
 
@@ -344,10 +383,15 @@ def build_cli_inputs(spec, wd):
     sc = synth.make_scenario(rng, nchrom=spec["nchrom"], nsamples=len(spec["samples"]), nvars=spec["nvars"],
                              sample_names=spec["samples"], het_fraction=spec["het_fraction"],
                              kinds=("snv", "snv", "snv", "ins", "del"))
-    children = [s for s in spec["members"] if s.startswith("child")]
+    parents = {}
+    for fam in spec["families"]:
+        for ch in fam["children"]:
+            parents[ch] = (fam["father"], fam["mother"])
+    children = sorted(parents)
     for c in sc.chroms:
         for ch in children:
-            h, _ = synth.inherit(rng, sc.haps["father"][c], sc.haps["mother"][c], recomb_prob=spec["recomb_prob"])
+            fa, mo = parents[ch]
+            h, _ = synth.inherit(rng, sc.haps[fa][c], sc.haps[mo][c], recomb_prob=spec["recomb_prob"])
             sc.haps[ch][c] = h
     override = {}
     for c in sc.chroms:
@@ -359,7 +403,8 @@ def build_cli_inputs(spec, wd):
                 break
             i = idxs.pop()
             ch = rng.choice(children)
-            gf, gm = sc.genotype("father", c, i), sc.genotype("mother", c, i)
+            fa, mo = parents[ch]
+            gf, gm = sc.genotype(fa, c, i), sc.genotype(mo, c, i)
             bad = [g for g in GENOS
                    if not ((max(g) in gm and min(g) in gf) or (min(g) in gm and max(g) in gf))]
             if bad:
@@ -368,7 +413,7 @@ def build_cli_inputs(spec, wd):
             else:   # both parents het: make a parent homozygous against a homozygous child instead
                 gc = sc.genotype(ch, c, i)
                 if gc[0] == gc[1]:
-                    par = rng.choice(["father", "mother"])
+                    par = rng.choice([fa, mo])
                     override[(par, c, i)] = f"{1 - gc[0]}/{1 - gc[0]}"
         for _ in range(spec["n_missing"]):
             if not idxs:
@@ -392,12 +437,10 @@ def build_cli_inputs(spec, wd):
     if not reads:
         # whatshap rejects an alignment file without any mapped read: add one read of a sample that is not in the VCF
         c = sc.chroms[0]
-        reads.append(dict(name="ghost0", sample="ghost", chrom=c, start=0, cigar=[("M", 30)], seq=sc.ref[c][:30],
-                          qual=30, hap=0, flag=0))
+        reads.append(dict(name="ghost0", sample="ghost-not-in-vcf", chrom=c, start=0, cigar=[("M", 30)],
+                          seq=sc.ref[c][:30], qual=30, hap=0, flag=0))
     synth.write_bam(sc, reads, os.path.join(wd, "reads.bam"))
-    trios = [(ch, "father", "mother") for ch in children]
-    rng.shuffle(trios)
-    synth.write_ped(os.path.join(wd, "fam.ped"), trios)
+    synth.write_ped(os.path.join(wd, "fam.ped"), [tuple(l) for l in spec["ped_lines"]])
     if spec["cost"] == "genmap":
         L = max(len(sc.ref[c]) for c in sc.chroms)
         pts = sorted(rng.sample(range(1, L + 200), 6))
@@ -464,12 +507,15 @@ def call_term(c):
     return "None" if c is None else f"(Some ({c[0]}%Z, {c[1]}%Z, {c[2]}%Z))"
 
 
-def cli_case_term(tr, gts, calls, perturb=None):
-    """one traced (chromosome, family) -> (n, ts, genetic, [cli_col]) and bookkeeping"""
+def cli_case_term(tr, gts, calls, ts=None, with_tv=True):
+    """one traced (chromosome, family) -> (n, ts, genetic, [cli_col]) and bookkeeping.
+    ts: triples (f, m, c) as family indices to use (default: the trios of the trace); with_tv=False drops the traced
+    transmission values (used when the traced trios are not the PED's trios, so no transmission is reported for them)"""
     fam = tr["family"]
     n = len(fam)
     idx = {s: i for i, s in enumerate(fam)}
-    ts = [(idx[f], idx[m], idx[c]) for c, f, m in tr["trios"]]
+    if ts is None:
+        ts = [(idx[f], idx[m], idx[c]) for c, f, m in tr["trios"]]
     chrom = tr["chromosome"]
     acc = {p: j for j, p in enumerate(tr["accessible_positions"])}
     num2idx = {tr["numeric_ids"][s]: idx[s] for s in fam}
@@ -489,17 +535,18 @@ def cli_case_term(tr, gts, calls, perturb=None):
     for p in positions:
         gs = [gts[(chrom, p)][s] for s in fam]
         cs = [calls.get((chrom, p), {}).get(s) for s in fam]
+        tval = None
         if p in acc:
-            tv = f"(Some {tr['transmission_vector'][acc[p]]}%N)"
+            tval = tr["transmission_vector"][acc[p]] if with_tv else None
             alle = [(sr[i][0].get(p, -9), sr[i][1].get(p, -9)) for i in range(n)]
         else:
-            tv = "None"
             alle = []
+        tv = f"(Some {tval}%N)" if tval is not None else "None"
         gst = genos_term(gs)
         cst = _lst([call_term(c) for c in cs], "call")
         cols.append(f"({gst}, {cst}, {tv}, {'true' if p in covered else 'false'}, {'true' if p in acc else 'false'}, "
                     f"{entries_term(per_pos.get(p, []))}, {zpairs_term(alle)})")
-        meta.append({"pos": p, "gs": gs, "calls": cs, "acc": p in acc})
+        meta.append({"pos": p, "gs": gs, "calls": cs, "acc": p in acc, "tv": tval})
     term = (f"({n}, {triples_term(ts)}, {'true' if tr['genetic_haplotyping'] else 'false'}, "
             + _lst(cols, "cli_col") + ")")
     return term, meta, ts
